@@ -42,18 +42,6 @@ func (r *vReg) del(i int) {
 	r.live = nl
 }
 
-// vPick: a concrete index in [0,n) chosen nondeterministically
-func vPick(name string, n int) int {
-	k := vNondetInt(name)
-	vAssume(0 <= k && k < n)
-	for i := 0; i < n; i++ {
-		if k == i {
-			return i
-		}
-	}
-	return 0
-}
-
 func (r *vReg) check(tag string) {
 	probe := vNondetInt("probe")
 	var want *conn
